@@ -124,17 +124,16 @@ theorem rejects_traversal (p : Bytes) (remote : Bool) (peer : Peer) (h : dotdot 
 /-! ## The client exchange: filesystem effects for every server-supplied message -/
 
 /-- **client_effects** (clauses "creates at most one directory", "any other path causes no filesystem
-    change and a clean failure reply"): for every environment (connection address, outcome of the
-    filesystem calls, transport outcomes, server verdict) and every first message, EITHER the
+    change and a clean failure reply", "whatever the client created is removed again"): for every
+    environment (connection address, outcome of the filesystem calls, transport outcomes — including a
+    failing send of the result code —, server verdict) and every first message, EITHER the
     filesystem-effect log is empty and the result code is not 0, OR the received path was accepted
-    by the validator with leaf `leaf`, the code is 0 and the log is exactly `mkdir leaf, remove leaf`
-    — or just `mkdir leaf` when the result code could not be sent (see `client_cleanup_fails`). -/
+    by the validator with leaf `leaf`, the code is 0 and the log is exactly `mkdir leaf, remove leaf`. -/
 theorem client_effects (env : Env) (remote : Bool) (m : PathMsg) :
     ((client env remote m).eff = [] ∧ (client env remote m).reply ≠ some 0) ∨
     ∃ p leaf, recvPath m = .ok p ∧ validate p remote env.peer = .ok leaf ∧
       (client env remote m).reply = some 0 ∧
-      ((client env remote m).eff = [.mkdir leaf, .remove leaf] ∨
-       (env.sendOk = false ∧ (client env remote m).eff = [.mkdir leaf])) := by
+      (client env remote m).eff = [.mkdir leaf, .remove leaf] := by
   unfold client
   cases hr : recvPath m with
   | error e => left; simp
@@ -172,7 +171,7 @@ theorem client_mkdir_confined (env : Env) (remote : Bool) (m : PathMsg) (leaf : 
   rcases client_effects env remote m with ⟨he, _⟩ | ⟨p, l, hr, hv, _, he⟩
   · rw [he] at h; exact absurd h (by simp)
   · have hl : leaf = l := by
-      rcases he with he | ⟨_, he⟩ <;> rw [he] at h <;> simp at h <;> exact h
+      rw [he] at h; simp at h; exact h
     subst hl
     obtain ⟨hp, _, hs, hz, hd, hdd, hrec⟩ := validate_shape p remote env.peer leaf hv
     exact ⟨p, hr, hp, hs, hz, hd, hdd, hrec⟩
@@ -180,7 +179,7 @@ theorem client_mkdir_confined (env : Env) (remote : Bool) (m : PathMsg) (leaf : 
 /-- **at_most_one_mkdir**: the effect log never contains two directory creations. -/
 theorem at_most_one_mkdir (env : Env) (remote : Bool) (m : PathMsg) :
     ((client env remote m).eff.filter (fun e => match e with | .mkdir _ => true | .remove _ => false)).length ≤ 1 := by
-  rcases client_effects env remote m with ⟨he, _⟩ | ⟨p, l, _, _, _, he | ⟨_, he⟩⟩ <;> rw [he] <;> simp
+  rcases client_effects env remote m with ⟨he, _⟩ | ⟨p, l, _, _, _, he⟩ <;> rw [he] <;> simp
 
 /-- **client_refuses** (clause "no filesystem change and a clean failure reply"): when the received
     path is empty or rejected by the validator, nothing is created or removed and the result code
@@ -207,34 +206,15 @@ theorem client_no_path_no_effect (env : Env) (remote : Bool) (m : PathMsg) (e : 
     (client env remote m).eff = [] ∧ (client env remote m).reply = none ∧ (client env remote m).ret = .error e := by
   unfold client; rw [hr]; simp
 
-/-- **client_cleanup_partial** (clause "whatever the client created is removed again once the exchange
-    completes"), for every path, every filesystem outcome and EVERY continuation after the result
-    code was sent (any verdict, trailing data, receive error): the log is empty or
-    `mkdir leaf, remove leaf`. Hypothesis: the result code could be handed to the transport. -/
-theorem client_cleanup_partial (env : Env) (remote : Bool) (m : PathMsg) (hs : env.sendOk = true) :
+/-- **client_cleanup** (clause "whatever the client created is removed again once the exchange
+    completes"), for every path, every filesystem outcome and EVERY way the exchange can end (result
+    code not deliverable, any verdict, trailing data, receive error): the log is empty or
+    `mkdir leaf, remove leaf`. -/
+theorem client_cleanup (env : Env) (remote : Bool) (m : PathMsg) :
     (client env remote m).eff = [] ∨ ∃ leaf, (client env remote m).eff = [.mkdir leaf, .remove leaf] := by
-  rcases client_effects env remote m with ⟨he, _⟩ | ⟨p, l, _, _, _, he | ⟨hf, _⟩⟩
+  rcases client_effects env remote m with ⟨he, _⟩ | ⟨p, l, _, _, _, he⟩
   · exact Or.inl he
   · exact Or.inr ⟨l, he⟩
-  · rw [hs] at hf; exact absurd hf (by simp)
-
-/-- the clean-up clause without any assumption on the transport -/
-def client_cleanup_statement : Prop :=
-  ∀ (env : Env) (remote : Bool) (m : PathMsg),
-    (client env remote m).eff = [] ∨ ∃ leaf, (client env remote m).eff = [.mkdir leaf, .remove leaf]
-
-/-- witness: the server sends `/tmp/FS_1`, then the client's write of the result code fails -/
-def leakWitnessMsg : PathMsg := .payload [47, 116, 109, 112, 47, 70, 83, 95, 49, 0]
-
-/-- **client_cleanup_fails** (observation, outside the property's quantifier — it ranges over
-    path strings, not over transport failures): the code registers its clean-up only AFTER the result
-    code was sent, so when that send fails the directory just created stays behind. -/
-theorem client_cleanup_fails : ¬ client_cleanup_statement := by
-  intro h
-  have hw : (client { peer := .nil, sendOk := false } false leakWitnessMsg).eff = [.mkdir [70, 83, 95, 49]] := by decide
-  rcases h { peer := .nil, sendOk := false } false leakWitnessMsg with h | ⟨l, h⟩
-  · rw [hw] at h; exact absurd h (by simp)
-  · rw [hw] at h; exact absurd (congrArg List.length h) (by simp)
 
 /-! ## Clause 4 — the server's verification -/
 
